@@ -795,6 +795,45 @@ fn exec(case: &mut Case, dir: &PathBuf, line: &str, out: &mut Out) -> (String, S
                 }));
                 outl
             }
+            ["wfault", s] | ["ffault", s] => {
+                // the same save with every write to a regular file failing (RLIMIT_FSIZE = 0, SIGXFSZ ignored so the
+                // write returns EFBIG — a full disk / quota): the save must report the error and the cache file must be
+                // exactly what it was (atomic replacement: a failed save never replaces a good file)
+                let i: usize = s.parse().unwrap();
+                let raw_before = read_raw(&case.path);
+                let flush = ws[0] == "ffault";
+                let mut old = libc::rlimit { rlim_cur: 0, rlim_max: 0 };
+                let r = unsafe {
+                    libc::signal(libc::SIGXFSZ, libc::SIG_IGN);
+                    libc::getrlimit(libc::RLIMIT_FSIZE, &mut old);
+                    let lim = libc::rlimit { rlim_cur: 0, rlim_max: old.rlim_max };
+                    libc::setrlimit(libc::RLIMIT_FSIZE, &lim);
+                    let r = if flush { case.stores[i].sync_and_flush_to_disk(false).is_ok() } else { case.stores[i].write().is_ok() };
+                    libc::setrlimit(libc::RLIMIT_FSIZE, &old);
+                    r
+                };
+                let raw_after = read_raw(&case.path);
+                let loads = case.load().is_some();
+                let (b, a) = (raw_before.show(), raw_after.show());
+                let was_loadable = matches!(raw_before, RawFile::Data(_));
+                let disabled = case.disabled[i];
+                let a2 = a.clone();
+                orc_jobs.push(Box::new(move |o, _| {
+                    if disabled {
+                        return;
+                    }
+                    if r {
+                        o.fail("failed-save-reported", "every write failed, yet the save returned Ok".into());
+                    }
+                    if a2 != b {
+                        o.fail("atomic-replace", format!("a failed save changed the cache file from {b} to {a2}"));
+                    }
+                    if was_loadable && !loads {
+                        o.fail("atomic-replace", "a failed save left a cache file that no longer loads".into());
+                    }
+                }));
+                format!("{} f={a}", if r { "ok" } else { "err" })
+            }
             ["write", s] => {
                 let i: usize = s.parse().unwrap();
                 let r = case.stores[i].write();
@@ -1392,6 +1431,10 @@ fn main() {
             "file 1=i4:1,u:1,q,p:1;1;0;9223372035155775807+i4:1,u:2,q,p:1;1;0;999999|2=i4:1,u:1,q,p:2;1;0;9223372035155689408", "load",
             "add 0 i4:1,u:1,q,p:3", "flush 0 1", "load", "start - - - -",
             "file 1=i4:1,u:1,q,p:1;4294967295;4294967295;9223372035155775806", "load", "flush 0 0", "load",
+            // a save during which every write fails (disk full): reported, and the good file stays (seeded change r5m2
+            // buffered the output and dropped the flush error before the atomic commit)
+            "cfg 3 3 100 1", "tick 2", "add 0 i4:1,u:1,q,p:1", "flush 0 0", "load", "tick 2", "add 0 i4:1,u:1,q,p:2", "wfault 0", "load",
+            "ffault 0", "load", "flush 0 0", "load",
             "cfg 50 6 86400 3", "race 1 3 40",
         ];
         let mut budget = args.n as i64;
